@@ -240,7 +240,7 @@ Proof.
   { unfold policy_ok in Hp. clear - Hp. unfold run. revert Hp. generalize (init c). induction ops as [|o l IH]; intros s0; cbn.
     - rewrite andb_true_r. auto.
     - intros H. apply andb_prop in H. apply IH. tauto. }
-  pose proof (alloc_inv c _ (run c ops) n (MapRet r) F I Hs'
+  pose proof (alloc_inv c _ (run c ops) n (MapRet r) F I
                (policy_env_fresh c (run c ops) (Alloc n (MapRet r)) (MapRet r) Hpol eq_refl)) as [I' P].
   cbn [step]. destruct P as [[R [S E0]]| (o & sz & unp & R & L)].
   - cbn in E0. contradiction.
